@@ -124,6 +124,10 @@ def rule_index_kept(ctx):
                 if not (isinstance(root, ast.Name) and root.id in params):
                     continue
                 v = node.value
+                if isinstance(v, ast.Name):
+                    from ..exprs import single_defs
+
+                    v = single_defs(fi.node).get(v.id, v)
                 if isinstance(v, ast.Call) and call_name(v) in ("DataFrame", "Series"):
                     n += 1
                     idx = kwarg(v, "index")
